@@ -170,6 +170,7 @@ func runC04(c *Ctx) {
 			}
 		}
 	}
+	spHistories(c, g)
 	randomCombinations(c, g, 400, false)
 	c04HTTP(c)
 	c04Middleware(c)
